@@ -13,6 +13,8 @@ pub mod portgraph;
 pub mod predicate;
 pub mod string;
 pub mod utils;
+#[cfg(feature = "verif")]
+pub mod verif;
 
 pub use constraint::{Constraint, DetHeuristic};
 pub use constraint_tree::{ConditionedPredicate, ConstraintTree, ToConstraintsTree};
